@@ -322,6 +322,28 @@ class SolveProperty(Property):
                 out.append(with_("fw", "i:%d:%s" % (n - 1, ",".join(keep))))
         return out[:60]
 
+    # the command line in front of the solvers (where solver and encoder are selected): C01-C04 run the part of the
+    # CLI dispatch correspondence (props_cli.C05.dispatch_trace) that concerns their problems
+    cli_tasks = None
+    cli_cert = None
+
+    @property
+    def needs_bins(self):
+        return self.cli_tasks is not None
+
+    def extra(self, ctx):
+        if self.cli_tasks is None:
+            return [], {}
+        import random
+        import props_cli
+        rng = random.Random(ctx["seed"])
+        c05 = props_cli.C05()
+        findings, cov = c05.dispatch_trace(ctx, rng, tasks=self.cli_tasks, force_cert=self.cli_cert)
+        f2, c2 = c05.search_after_dispatch_break(ctx, rng, findings)
+        findings += f2
+        cov.update(c2)
+        return findings, cov
+
     def stats(self, cases, impl, model):
         from collections import Counter
         sems = Counter()
@@ -353,22 +375,30 @@ class SolveProperty(Property):
                                  "sat_replies": dict(replies), "answers": dict(answers)}}
 
 
+CLI_RULE = "; plus the command line in front of the solvers: `crustabri solve` for the property's problems x {default, aux_var, exp, hybrid} on the dispatch frameworks with a recording external solver - SAT instances compared with the composed Lean model (dispatchSolver, dispatchEncoder, entryProg), printed answers judged; a search over CLI invocations for a wrong printed answer when that correspondence breaks"
+
+
 class C01(SolveProperty):
     id = "C01"
     thorough_k = 40000
     tasks = ["SE"]
-    rule = "exhaustive digraphs n<=2 (quick) / n<=3 (thorough) + random and structured frameworks up to 8 arguments (both framework routes: ICCMA text with duplicate attacks, update histories with removals), x solver/encoder configurations; a case is non-trivial when the framework has at least one attack; distinct = distinct (framework spec, configuration)"
+    cli_tasks = ("SE",)
+    base_rule = "exhaustive digraphs n<=2 (quick) / n<=3 (thorough) + random and structured frameworks up to 8 arguments (both framework routes: ICCMA text with duplicate attacks, update histories with removals), x solver/encoder configurations; a case is non-trivial when the framework has at least one attack; distinct = distinct (framework spec, configuration)"
+    rule = base_rule + CLI_RULE
 
 
 class C02(SolveProperty):
     id = "C02"
     tasks = ["DC"]
-    rule = C01.rule + "; every argument of each framework is queried (up to 4 per configuration)"
+    cli_tasks = ("DC",)
+    base_rule = C01.base_rule + "; every argument of each framework is queried (up to 4 per configuration)"
+    rule = base_rule + CLI_RULE
 
 
 class C03(SolveProperty):
     id = "C03"
     tasks = ["DS"]
+    cli_tasks = ("DS",)
     rule = C02.rule
 
 
@@ -376,21 +406,12 @@ class C04(SolveProperty):
     id = "C04"
     tasks = ["DC", "DS"]
     certs = [1]
-    needs_bins = True
-    rule = C02.rule + ("; certificate variants only; plus the command line, where the encoding is selected: `crustabri solve -c` for every DC/DS problem x "
+    cli_tasks = ("DC", "DS")
+    cli_cert = True
+    rule = C02.base_rule + ("; certificate variants only; plus the command line, where the encoding is selected: `crustabri solve -c` for every DC/DS problem x "
                        "{default, aux_var, exp, hybrid} on the dispatch frameworks with a recording external solver - the SAT instances are compared with the "
                        "composed Lean model (dispatchSolver, dispatchEncoder, entryProg) and the printed certificate is judged")
 
-    def extra(self, ctx):
-        import random
-        import props_cli
-        rng = random.Random(ctx["seed"])
-        c05 = props_cli.C05()
-        findings, cov = c05.dispatch_trace(ctx, rng, tasks=("DC", "DS"), force_cert=True)
-        f2, c2 = c05.search_after_dispatch_break(ctx, rng, findings)
-        findings += f2
-        cov.update(c2)
-        return findings, cov
 
 
 class C07(SolveProperty):
@@ -399,7 +420,7 @@ class C07(SolveProperty):
     tasks = ["DC", "DS"]
     certs = [0, 1]
     multi = True
-    rule = C01.rule + ("; argument lists of length 1-3 with repetition, drawn over all components; both the certificate and the certificate-less entry point; "
+    rule = C01.base_rule + ("; argument lists of length 1-3 with repetition, drawn over all components; both the certificate and the certificate-less entry point; "
                        "plus disjoint unions of 2-4 small components (isolated arguments, chains, even and odd cycles, floating-acceptance gadgets whose floating argument is in every preferred extension but not ideal, random 2-3 argument graphs) queried with many ordered "
                        "pairs and triples so that accepted / rejected arguments of different components occur in every order")
 
